@@ -610,9 +610,14 @@ class C01(Check):
                   # precision pads like a width; bytes formatting; formatting of nested results
                   ("'%.300000000d' % 7", None), ("'%.300000000f' % 1.5", None), ("'%300000000s' % 'x'", None),
                   ("'%-300000000d|' % 7", None), ("'%0300000000d' % 7", None), ("'%.300000000e' % 1.5", None),
-                  ("'%5.300000000d' % 7", None), ("'%(a).300000000d' % 7", None)]
+                  ("'%5.300000000d' % 7", None), ("'%(a).300000000d' % 7", None),
+                  # operands at the edge of their type: negative bases and factors, booleans, parenthesised signs
+                  ("(-9) ** 9 ** 9", None), ("(-7) ** (10 ** 8)", None), ("(0 - 3) ** (3 * 10 ** 8)", None),
+                  ("(-2) ** 499999 * (-2) ** 499999 * (-2) ** 499999", None), ("(-1 - 1) ** (2 ** 40)", None),
+                  ("-(2 ** 499999) * -(2 ** 499999) * 2 ** 499999", None), ("(-10) ** 10 ** 10", "math"),
+                  ("True * 'ab' * 10 ** 9", None), ("pow(-3.0, 10 ** 9) * 0 + (-3) ** 10 ** 9", None)]
         if self.tier == "quick":
-            stream = stream[:10] + stream[12:18] + stream[23:31] + stream[35:41]
+            stream = stream[:10] + stream[12:18] + stream[23:31] + stream[35:41] + stream[43:47]
         limit = 4.0
         results = []
         ctx = multiprocessing.get_context("fork")
@@ -849,6 +854,38 @@ class C01(Check):
                 continue
             break
         self.extra_cov["clock_probes"] = {"runs": n_clk, "extra_numeric_options": extra_opts}
+        # 10. tools registered under names that are not identifiers (brackets, operators, regex metacharacters, blanks,
+        #     the empty name, a name equal to an allow-listed function): every expression, on every pathway, still gets a
+        #     result object
+        odd_names = ["pct(", "lookup[", "*args", "a+b", "t.t", "a|b", "(?P<n>", "\\d", "two words", "", "^x$", "{1}", "sqrt",
+                     "x)", "[", "tool\n", "caf\u00e9", "1st"]
+        n_odd = 0
+        for k, nm in enumerate(odd_names):
+            step = "register"
+            try:
+                with contextlib.redirect_stdout(io.StringIO()):
+                    m = Mitochondria(silent=(k % 2 == 0))
+                    m.engulf_tool(SimpleTool(name="add", description="", func=lambda *a, **kw: sum(a)))
+                    m.engulf_tool(SimpleTool(name=nm, description="", func=lambda *a, **kw: 7))
+                    for e in ("2 + 2", "", "add(2, 3)", f"{nm}(1)", f"{nm}", "1 < 2", "sqrt(16)", "1 +", f" {nm} (1)"):
+                        for pw in (None, "tools", "math"):
+                            step = f"metabolize({e!r}, pathway={pw!r})"
+                            r = m.metabolize(e) if pw is None else m.metabolize(e, pathway=pw)
+                            if not hasattr(r, "success"):
+                                raise TypeError("not a result object")
+                    step = "digest_glucose / list_tools / export_tool_schemas"
+                    m.digest_glucose("2 * 3")
+                    m.list_tools()
+                    m.export_tool_schemas()
+                    step = "execute_tool_call"
+                    m.execute_tool_call(ToolCall(id="1", name=nm, arguments={}))
+            except BaseException as ex:  # noqa
+                self.violations.append(Violation(
+                    "C01/raises", f"with a tool registered under the name {nm!r}: {step} raised {type(ex).__name__}: {str(ex)[:80]}",
+                    case={"odd_tool_name_probe": nm, "expr": "2 + 2", "pathway": None, "tools": [], "allowed": None, "silent": True}))
+                break
+            n_odd += 1
+        self.extra_cov["odd_tool_name_probes"] = n_odd
 
     def shrink(self, case, pred):
         return case
